@@ -132,6 +132,27 @@ def buildStep (tab : List Json) (s : Json) : Option Json :=
       | _, _ => none
     else none
 
+/-- do the hypotheses of `Props.C08.create_built_accepted` hold for this create step? (evidence of
+    non-vacuity: counted per run) -/
+def createPremises (cfg : Protocol) (orc : Oracles) (s : Json) : Option Bool :=
+  let i := s.getD "info"
+  if getStr s "op" ≠ "create" ∨ getStr s "via" ≠ "builder" then none
+  else
+    let code := getNat i "code"
+    let info : CreateInfo :=
+      { opaqueDoc := optMember i "opaque", patches := getArr i "patches", recoveryCommitment := getStr i "rc",
+        updateCommitment := getStr i "uc", anchorOrigin := optMember i "anchorOrigin", type := getStr i "type", code := code }
+    match patchesOf info.opaqueDoc info.patches with
+    | none => some false
+    | some patches =>
+      let delta := mkDelta info.updateCommitment patches
+      let dh := (Hashing.calculateModelMultihash hashFam delta.toJson code).getD ""
+      let sd : SuffixData := { deltaHash := dh, recoveryCommitment := info.recoveryCommitment, anchorOrigin := info.anchorOrigin, type := info.type }
+      some (decide (cfg.multihashAlgorithms = [code]) && (match info.anchorOrigin with | some .null => false | _ => true) && orc.anchorOriginOK info.anchorOrigin &&
+        Parser.validateDelta cfg orc (some delta) && decide (utf8Len info.recoveryCommitment ≤ cfg.maxOperationHashLength) &&
+        decide (utf8Len dh ≤ cfg.maxOperationHashLength) && (transformValue sd.toJson).isSome &&
+        (newCreateRequest hashFam info).isSome)
+
 /-- kind `lifecycle` (C08): build every request, parse it, convert it to its anchored form,
     apply that (and the original bytes) to the state so far -/
 def lifecycleKind (c : Json) : Json :=
@@ -157,6 +178,7 @@ def lifecycleKind (c : Json) : Json :=
                 request := Parse.parse t.toList, transactionTime := getNat s "t", transactionNumber := getNat s "n",
                 protocolVersion := 0, canonicalReference := "ref" ++ toString idx, equivalentReferences := none }
             let common : List (String × Json) :=
+              (match createPremises cfg orc s with | some b => [("premises", .bool b)] | none => []) ++
               [("built", .str "ok"), ("request", .str text), ("parse", .str "ok"), ("anchored", .str atext),
                ("atype", .str p.type.toString), ("asuffix", .str p.uniqueSuffix), ("aorigin", optJson p.anchorOrigin)]
             match Applier.apply hashFam cfg orc (mk atext) rm, Applier.apply hashFam cfg orc (mk text) rm with
